@@ -25,10 +25,11 @@
      ChangeLabel     changeLabel(nuclide, newLabel): label attribute and byLabel[newLabel]; the old key stays
      Destroy         destroyGlobalNuclides(): instances and the dictionaries are emptied -- Element.nuclides are NOT
                      (only explored when WithDestroy; see NuclideFactory_destroy.cfg, which TLC refutes)
-   Environment assumptions (ASSUME below): candidates are physical enough that two of them never share an MCNP identifier
-   unless they share a name (addGlobalNuclide tests the MCNP identifier only after it has inserted the nuclide into
-   instances and three dictionaries: a collision on that identifier alone would leave a half-registered nuclide behind;
-   that path cannot occur for mass numbers below 400 within one element's range and is outside this model).
+   addGlobalNuclide tests the MCNP identifier only AFTER it has inserted the nuclide into instances and three dictionaries:
+   a collision on that identifier alone raises ValueError and leaves a half-registered nuclide behind (HalfRegistered
+   below, transcribed as it is).  Two nuclides with different names and labels share an MCNP identifier only if their mass
+   numbers differ by a multiple of 100 in one element with a one-letter symbol (K-438 and K-38m): no physical candidate
+   does, the default configurations cannot reach the branch, NuclideFactory_mcnp.cfg does and TLC refutes it there.
    Element.append compares nuclides by hash((a, z, state)) (dummy / lump: plus the weight): an object equal to a member is
    not appended. *)
 EXTENDS NuclideDirectory
@@ -60,7 +61,6 @@ SameKey(r, q) == r.z = q.z /\ r.a = q.a /\ r.s = q.s /\ r.w = q.w     \* INuclid
 
 (* the model's MC2 data give every nuclide its own identifiers (the real file's shared "DUMMY" is reported by NuclideTable) *)
 ASSUME \A d, e \in MccData : \A col \in {"v2", "v70", "v71"} : d[col] # "" /\ d[col] = e[col] => d = e
-ASSUME \A c, d \in Cand : McnpOf(c.z, c.a, c.s) = McnpOf(d.z, d.a, d.s) => RawNameOf(c.z, c.a, c.s) = RawNameOf(d.z, d.a, d.s)
 
 Init0 == /\ inst = <<>> /\ obj = Empty
         /\ byName = Empty /\ byDb = Empty /\ byLabel = Empty /\ byMcnp = Empty /\ byAzs = Empty
@@ -74,6 +74,13 @@ Register(r, a) ==
         db == DbOf(r)
     IN  IF r.name \in DOMAIN byName \/ db \in DOMAIN byDb \/ r.label \in DOMAIN byLabel
         THEN /\ err' = "ValueError" /\ act' = a /\ UNCHANGED vars
+        ELSE IF McnpOfObj(r) # "" /\ McnpOfObj(r) \in DOMAIN byMcnp
+        THEN \* HalfRegistered: ValueError after instances, byName, byDBName, byLabel were updated; no MCNP / AAAZZZS key, no Element.append
+             /\ err' = "ValueError" /\ act' = a
+             /\ Len(inst) < MaxInst
+             /\ obj' = obj @@ (o :> r) /\ inst' = Append(inst, o)
+             /\ byName' = Put(byName, r.name, o) /\ byDb' = Put(byDb, db, o) /\ byLabel' = Put(byLabel, r.label, o)
+             /\ UNCHANGED <<byMcnp, byAzs, byMcc2, byMcc3v0, byMcc3v1, members, relabelled, stale>>
         ELSE /\ err' = "" /\ act' = a
              /\ Len(inst) < MaxInst
              /\ obj' = obj @@ (o :> r)
